@@ -329,3 +329,21 @@ func badSized(n uint32, limit int) []float64 {
 	}
 	return out
 }
+
+// ---- decoded index (TAINT index sinks)
+
+var orderTable = [2]int{10, 20}
+
+func goodIndexBounded(b byte) int {
+	if int(b) >= len(orderTable) {
+		return -1
+	}
+	return orderTable[b]
+}
+
+func badIndexOffByOne(b byte) int {
+	if int(b) > len(orderTable) {
+		return -1
+	}
+	return orderTable[b]
+}
